@@ -57,8 +57,10 @@ def build_api(case):
 
 
 def get_prim(case):
+    """-> (unbound triangle set, primitive under test, site)"""
     import collada
     mode = case['mode']
+    seq = case.get('seq') or ''
     if mode in ('api', 'bound-api'):
         mesh, g, ts = build_api(case)
     else:
@@ -66,14 +68,17 @@ def get_prim(case):
         g = mesh.geometries[0]
         ts = g.primitives[0]
     if mode == 'api' or mode == 'xml':
-        return ts, 'TriangleSet'
+        return ts, ts, 'TriangleSet'
+    if seq == 'unbound-first':
+        # normals are regenerated on the unbound set BEFORE it is bound
+        ts.generateNormals()
     if mode == 'bound-api':
         m = case['mat']
         M = numpy.array([m[0:4], m[4:8], m[8:12], [0, 0, 0, 1]], dtype=numpy.float32)
         bg = g.bind(M, {})
-        return list(bg.primitives())[0], 'BoundTriangleSet'
+        return ts, list(bg.primitives())[0], 'BoundTriangleSet'
     bgs = list(mesh.scene.objects('geometry'))
-    return list(bgs[0].primitives())[0], 'BoundTriangleSet'
+    return ts, list(bgs[0].primitives())[0], 'BoundTriangleSet'
 
 
 def unit(v):
@@ -97,7 +102,7 @@ def run_case(case):
             fails.append({'clause': clause, 'site': site, 'what': what, 'detail': detail})
 
     try:
-        prim, site = get_prim(case)
+        ts0, prim, site = get_prim(case)
     except Exception as e:  # noqa
         return {'obs': None, 'fails': [{'clause': 'construct', 'site': case['mode'],
                                         'what': 'could not build the triangle set: %r' % (e,)}],
@@ -107,72 +112,89 @@ def run_case(case):
     P = numpy.asarray(prim.vertex, dtype=numpy.float64)
     obs['verts'] = exact_rows(P)
     fn = ref_face_normals(P, tris)
+    seq = case.get('seq') or ''
+
+    def check_generated(pr, where, PP, ffn):
+        """clause 2 on a primitive whose generateNormals() has just run -> (N, NI) or None"""
+        N = numpy.asarray(pr.normal, dtype=numpy.float64)
+        NI = numpy.asarray(pr.normal_index)
+        if N.shape != PP.shape:
+            fail('indexed-like-vertices', where, 'normal array has shape %r, vertex array %r' % (N.shape, PP.shape))
+            return N, NI
+        if NI.shape != (len(tris), 3) or [tuple(int(x) for x in r) for r in NI] != tris:
+            fail('indexed-like-vertices', where, 'normal_index differs from vertex_index')
+            return N, NI
+        sums = numpy.zeros(PP.shape)
+        used = numpy.zeros(len(PP), dtype=bool)
+        cnt = numpy.zeros(len(PP), dtype=int)
+        if all(f is not None for f in ffn):
+            for t, f in zip(tris, ffn):
+                for c in range(3):
+                    sums[t[c]] = sums[t[c]] + f
+                    used[t[c]] = True
+                    cnt[t[c]] += 1
+            for v in range(len(PP)):
+                if not used[v]:
+                    continue
+                L = math.sqrt(float(numpy.dot(sums[v], sums[v])))
+                if L < MIN_SUM:
+                    continue
+                exp = sums[v] / L
+                if not numpy.all(numpy.abs(N[v] - exp) <= TOL * max(1.0, cnt[v] / (4 * L))):
+                    fail('vertex-sum', where,
+                         'vertex %d (in %d triangle corners, sequence %r, scale 2^%s): generated normal %s, normalised '
+                         'sum of the incident unit face normals is %s'
+                         % (v, cnt[v], seq, case.get('scale_exp', 0), N[v].tolist(), exp.tolist()), {'vertex': v})
+                    break
+        # the triangles handed out afterwards use the generated normals, indexed like the vertices
+        try:
+            for i in range(len(pr)):
+                rows = numpy.asarray(pr[i].normals, dtype=numpy.float64)
+                if rows.shape != (3, 3) or not numpy.array_equal(rows, N[list(tris[i])]):
+                    fail('indexed-like-vertices', where,
+                         'triangle %d after generateNormals does not carry the normals of its vertices' % i)
+                    break
+        except Exception as e:  # noqa
+            fail('indexed-like-vertices', where, 'iterating triangles after generateNormals raised %r' % (e,))
+        return N, NI
 
     if case['kind'] == 'normals':
+        if seq == 'unbound-first' and ts0 is not prim:
+            # the unbound set was regenerated before binding: it must be right as well
+            try:
+                P0 = numpy.asarray(ts0.vertex, dtype=numpy.float64)
+                check_generated(ts0, 'TriangleSet', P0, ref_face_normals(P0, tris))
+            except Exception as e:  # noqa
+                fail('vertex-sum', 'TriangleSet', 'checking the unbound set raised %r' % (e,))
         # ---- clause 1: a triangle without normals carries the unit right-hand normal, three times
         face = []
-        try:
-            for i in range(len(prim)):
-                T = prim[i]
-                rows = numpy.asarray(T.normals, dtype=numpy.float64)
-                face.append(rows)
-                if rows.shape != (3, 3):
-                    fail('face-normal', site, 'Triangle.normals has shape %r' % (rows.shape,))
-                elif fn[i] is not None and not numpy.all(numpy.abs(rows - fn[i]) <= TOL):
-                    fail('face-normal', site, 'triangle %d: implicit normals %s, unit right-hand normal is %s'
-                         % (i, rows.tolist(), fn[i].tolist()))
-            obs['face'] = exact_rows(numpy.array(face).reshape(-1, 3)) if face else ([], 1)
-        except Exception as e:  # noqa
-            fail('face-normal', site, 'iterating triangles raised %r' % (e,))
-            obs['face'] = None
-        # ---- clause 2: generateNormals
+        obs['face'] = ([], 1)
+        if prim.normal is None:
+            try:
+                for i in range(len(prim)):
+                    T = prim[i]
+                    rows = numpy.asarray(T.normals, dtype=numpy.float64)
+                    face.append(rows)
+                    if rows.shape != (3, 3):
+                        fail('face-normal', site, 'Triangle.normals has shape %r' % (rows.shape,))
+                    elif fn[i] is not None and not numpy.all(numpy.abs(rows - fn[i]) <= TOL):
+                        fail('face-normal', site, 'triangle %d (scale 2^%s): implicit normals %s, unit right-hand normal is %s'
+                             % (i, case.get('scale_exp', 0), rows.tolist(), fn[i].tolist()))
+                obs['face'] = exact_rows(numpy.array(face).reshape(-1, 3)) if face else ([], 1)
+            except Exception as e:  # noqa
+                fail('face-normal', site, 'iterating triangles raised %r' % (e,))
+                obs['face'] = None
+        # ---- clause 2: generateNormals (possibly for the second time)
         try:
             prim.generateNormals()
-            N = numpy.asarray(prim.normal, dtype=numpy.float64)
-            NI = numpy.asarray(prim.normal_index)
+            if seq.endswith('twice'):
+                prim.generateNormals()
+            N, NI = check_generated(prim, site, P, fn)
         except Exception as e:  # noqa
             fail('vertex-sum', site, 'generateNormals raised %r' % (e,))
             return {'obs': None, 'fails': fails}
         obs['normal'] = exact_rows(N) if N.ndim == 2 and N.shape[1] == 3 else None
         obs['normal_index'] = [[int(x) for x in row] for row in NI.reshape(-1, 3)] if NI.size % 3 == 0 else None
-        if N.shape != P.shape:
-            fail('indexed-like-vertices', site, 'normal array has shape %r, vertex array %r' % (N.shape, P.shape))
-        elif NI.shape != (len(tris), 3) or [tuple(int(x) for x in r) for r in NI] != tris:
-            fail('indexed-like-vertices', site, 'normal_index differs from vertex_index')
-        else:
-            sums = numpy.zeros(P.shape)
-            used = numpy.zeros(len(P), dtype=bool)
-            cnt = numpy.zeros(len(P), dtype=int)
-            ok = all(f is not None for f in fn)
-            if ok:
-                for t, f in zip(tris, fn):
-                    for c in range(3):
-                        sums[t[c]] = sums[t[c]] + f
-                        used[t[c]] = True
-                        cnt[t[c]] += 1
-                for v in range(len(P)):
-                    if not used[v]:
-                        continue
-                    L = math.sqrt(float(numpy.dot(sums[v], sums[v])))
-                    if L < MIN_SUM:
-                        continue
-                    exp = sums[v] / L
-                    if not numpy.all(numpy.abs(N[v] - exp) <= TOL * max(1.0, cnt[v] / (4 * L))):
-                        fail('vertex-sum', site,
-                             'vertex %d (in %d triangle corners): generated normal %s, normalised sum of the '
-                             'incident unit face normals is %s' % (v, cnt[v], N[v].tolist(), exp.tolist()),
-                             {'vertex': v})
-                        break
-            # the triangles handed out afterwards use the generated normals, indexed like the vertices
-            try:
-                for i in range(len(prim)):
-                    rows = numpy.asarray(prim[i].normals, dtype=numpy.float64)
-                    if rows.shape != (3, 3) or not numpy.array_equal(rows, N[list(tris[i])]):
-                        fail('indexed-like-vertices', site,
-                             'triangle %d after generateNormals does not carry the normals of its vertices' % i)
-                        break
-            except Exception as e:  # noqa
-                fail('indexed-like-vertices', site, 'iterating triangles after generateNormals raised %r' % (e,))
     else:
         # ---- clause 3: generated texture tangents are unit and orthogonal to the corner's normal
         try:
@@ -205,6 +227,7 @@ def run_case(case):
                 for c in range(3):
                     tan[t[c]] = tan[t[c]] + sd
             flat = [v for t in tris for v in t]
+            extent = max(1e-300, float(numpy.max(numpy.abs(P - P[tris[0][0]]))))
             for k in range(ncorner):
                 row = Tn[int(TI.reshape(-1)[k])]
                 n = NA[NI[k]]
@@ -213,7 +236,7 @@ def run_case(case):
                     continue                       # the corner's normal is not a unit vector: no demand
                 ref = tan[flat[k]] - n * float(numpy.dot(n, tan[flat[k]]))
                 scale = max(1e-9, math.sqrt(float(numpy.dot(tan[flat[k]], tan[flat[k]]))))
-                degenerate = math.sqrt(float(numpy.dot(ref, ref))) < 1e-2 * scale or scale < 1e-6
+                degenerate = math.sqrt(float(numpy.dot(ref, ref))) < 1e-2 * scale or scale < 1e-6 * extent
                 L = math.sqrt(float(numpy.dot(row, row))) if numpy.all(numpy.isfinite(row)) else float('nan')
                 if not (abs(L - 1.0) <= TOL):
                     if degenerate:
